@@ -443,6 +443,12 @@ def extract_item(repo, item, log):
     line_end = src.count("\n", 0, loc["end"]) + 1
     sha = hashlib.sha256(original.encode()).hexdigest()
     text = strip_attrs_and_docs(original, log, name)
+    if item.get("strip_vis", True):
+        # R12: item-level visibility dropped (single-file unit: no effect on semantics)
+        m = re.match(r"(\s*)pub(\([a-z ]+\))?\s+", text)
+        if m:
+            log.append(dict(item=name, rule="R12", before=m.group(0).strip(), after="", times=1))
+            text = m.group(1) + text[m.end():]
     text = apply_edits(text, item.get("edits"), log, name)
     kind = item["path"][-1].split(" ")[0]
     if kind == "fn":
